@@ -241,3 +241,46 @@ MUTANTS += [
     M("c12-r3-transient-label", "C12", "C12.R3", LPCS, "\t\t\tinputCounter:   NewLogInputCounter(pcounter.factory.AddOrGetPrefix(\"\", pcounter.metricKeyNames, permKeys)),", "\t\t\tinputCounter:   NewLogInputCounter(pcounter.factory.AddOrGetPrefix(\"\", pcounter.metricKeyNames, tempKeys)),", "label values change when the record buffer is recycled"),
     M("c12-r5-revert-rewriter-flag", "C12", "C10.R4", RUNESC, "\t// The record must not be marked as unescaped here: only the output is unescaped, not the field in the record,\n\t// which is to be serialized again for other outputs\n", "\trecord.Unescaped = true\n", "two outputs with an unescape rewriter: original defect D24"),
 ]
+
+MLR = "input/tcplistener/multilinereader.go"
+SPARSE = "input/syslogparser/syslogparser.go"
+RFC = "transform/tparsetime/rfc3339.go"
+SEX = "transform/textractspecial/stringextractor.go"
+ESER = "output/fluentdforward/eventserializer.go"
+REDACT = "transform/tredactemail/redactemail.go"
+UNESC = "util/stringunescape/unescape.go"
+TEX = "transform/textract/textract.go"
+SCHEMA = "base/logschema.go"
+RINLINE = "rewrite/rinline/rinline.go"
+
+MUTANTS += [
+    # ---------------- C07
+    M("c07-r1-revert-pri-guard", "C07", "C07.R1", SPARSE, "\tif len(val) < 3 || val[len(val)-2:] != \">1\" {", "\tif val[len(val)-2:] != \">1\" {", "a line starting with '< ' (one-byte PRI token)"),
+    M("c07-r1-revert-rfc3339-guard", "C07", "C07.R1", RFC, "\tif len(t) < 19 || t[4] != '-' ||", "\tif t[4] != '-' ||", "RFC 5424 NIL timestamp '-'"),
+    M("c07-r1-revert-trim-guard", "C07", "C07.R1", SEX, "\tif iend < istart {\n\t\treturn \"\"\n\t}\n", "", "a label consisting of blanks only"),
+    M("c07-r1n-revert-wildcard-check", "C07", "C07.R1n", SEX, "\t\tif position == extractFromStart && len(rightBoundary) == 0 {\n\t\t\treturn emptyExtractor, fmt.Errorf(\"patternParts[2] must not be empty for '*' at start\")\n\t\t}\n", "", "extractHead pattern '\\[*' (wildcard without right boundary)"),
+    M("c07-r1n-wrong-boundary-checked", "C07", "C07.R1n", SEX, "\t\tif position == extractFromEnd && len(leftBoundary) == 0 {", "\t\tif position == extractFromEnd && len(rightBoundary) == 0 {", "extractTail pattern '*\\]' (wildcard without left boundary)"),
+    M("c07-r1-nil-guard-dropped", "C07", "C07.R1", SEX, "\t\tif validChars != nil && matchValidCharsFromStart(tag, validChars) != len(tag) {", "\t\tif matchValidCharsFromStart(tag, validChars) != len(tag) {", "extractHead with '*' and a right boundary: nil table indexed on every record"),
+    M("c07-r1-maxrange-off-by-one", "C07", "C07.R1", SEX, "\t\tif len(s) > maxRange {\n\t\t\tiend = strings.Index(s[:maxRange], rightBoundary)", "\t\tif len(s) >= maxRange {\n\t\t\tiend = strings.Index(s[:maxRange+1], rightBoundary)", "label text exactly maxLen bytes long"),
+    M("c07-r1i-offset-not-relocated", "C07", "C07.R1i", MLR, "\t\tmlr.offsetSearch = searchStart - recordStart\n", "\t\tmlr.offsetSearch = searchStart\n", "a multi-line record followed by a partial line: search offset beyond the data, buffer[searchStart:] panics in checkOverflow"),
+    M("c07-r1i-partial-reset", "C07", "C07.R1i", MLR, "RESET:\n\tmlr.offsetAppend = 0\n\tmlr.offsetSearch = 0\n", "RESET:\n\tmlr.offsetAppend = 0\n", "buffer overflow reset with a non-zero search offset: next Flush slices beyond the data"),
+    M("c07-r1-read-ignores-offset", "C07", "C07.R1", MLR, "\t\tbufferedLength := n + mlr.offsetAppend\n", "\t\tbufferedLength := n + mlr.offsetAppend + 1\n", "any read: one byte of stale data is processed, at the end of the buffer the slice exceeds it"),
+    M("c07-r1-searchstart-guard", "C07", "C07.R1", MLR, "\t\tif searchStart > 0 && searchStart < nextEnd {", "\t\tif searchStart < nextEnd {", "first line of a connection: buffer[0:-1]"),
+    M("c07-r4-revert-field-guard", "C07", "C07.R1", ESER, "\t\t\t\tif len(buffer)-position-minTailLength < len(fieldKey)+maxStringHeaderLength+len(value) {\n\t\t\t\t\treturn packer.onOverflow(position)\n\t\t\t\t}\n", "", "a field larger than the serialization buffer followed by another field"),
+    M("c07-r4-revert-rewriter-guard", "C07", "C07.R1", ESER, "\t\t\t\tif len(buffer)-position-minTailLength < len(fieldKey)+maxStringHeaderLength+maxLength {\n\t\t\t\t\treturn packer.onOverflow(position)\n\t\t\t\t}\n", "", "a rewritten field larger than the serialization buffer"),
+    M("c07-r4-guard-forgets-tail", "C07", "C07.R1", ESER, "\t\t\t\tif len(buffer)-position-minTailLength < len(fieldKey)+maxStringHeaderLength+len(value) {", "\t\t\t\tif len(buffer)-position < len(fieldKey)+maxStringHeaderLength+len(value) {", "fields that fill the buffer exactly: the 'environment' key is written past the end"),
+    M("c07-r4-env-guard-dropped", "C07", "C07.R1", ESER, "\t\t\tif len(buffer)-position < len(envFieldKey)+maxStringHeaderLength+len(value) {\n\t\t\t\treturn packer.onOverflow(position)\n\t\t\t}\n", "", "environment field values that do not fit after large fields"),
+    M("c07-r4c-inline-negative-max", "C07", "C07.R4c", RINLINE, "\t\treturn len(rw.header) + len(fieldValue) + len(rw.separator) + rw.next.MaxFieldLength(value, record)", "\t\treturn len(rw.header) + len(fieldValue) + len(rw.separator) + rw.next.MaxFieldLength(value, record) - 64", "inline rewriter on a short value: negative reservation"),
+    M("c07-r1-redact-scan-past-end", "C07", "C07.R1", REDACT, "\tfor sAt < sEnd {\n\t\tif sAt > 0 && validWordChars[src[sAt-1]] && validWordChars[src[sAt+1]] {\n\t\t\treturn sAt", "\tfor sAt <= sEnd {\n\t\tif sAt > 0 && validWordChars[src[sAt-1]] && validWordChars[src[sAt+1]] {\n\t\t\treturn sAt", "a message ending in '@'"),
+    M("c07-r1-unescape-limit", "C07", "C07.R1", UNESC, "\tslimit := len(src) - 1\n", "\tslimit := len(src)\n", "a message ending in a backslash"),
+    M("c07-r1s-missing-guard-dropped", "C07", "C07.R1s", TEX, "\t\tif locator == base.MissingFieldLocator {\n\t\t\tcontinue\n\t\t}\n", "", "an 'extract' pattern with an unnamed group: fields[-1]"),
+    M("c07-r1s-schema-guard-dropped", "C07", "C07.R1s", SCHEMA, "\tif maxFields < len(fieldNames) {", "\tif maxFields < 0 {", "a schema with maxFields below the number of names: fields[loc] beyond the record's slots"),
+    M("c07-r1g-client-number-guard", "C07", "C07.R1g", TCP, "\t\tif newClientNumber >= base.MaxClientNumber {", "\t\tif newClientNumber > base.MaxClientNumber {", "descriptor number 262144"),
+    M("c07-r1c-maxlength-check-dropped", "C07", "C07.R1c", "transform/ttruncate/ttruncate.go", "\tif c.MaxLength <= 0 {\n\t\treturn fmt.Errorf(\".maxLength must be larger than zero: %d\", c.MaxLength)\n\t}\n", "", "truncate with maxLength -1: valueB[:-1]"),
+    M("c07-r0-recover-added", "C07", "C07.R0", LPW, "func (worker *LogProcessingWorker) onTick() {\n", "func (worker *LogProcessingWorker) onTick() {\n\tdefer func() { _ = recover() }()\n", "a recover() changes which panics are fatal: rule set must be re-scoped", expect="violation"),
+    B("c07-benign-guard-reordered", "C07", SPARSE, "\tif len(val) < 3 || val[len(val)-2:] != \">1\" {", "\tif n := len(val); n < 3 || val[n-2:] != \">1\" {"),
+    B("c07-benign-rfc-guard-split", "C07", RFC, "\tif len(t) < 19 || t[4] != '-' ||", "\tif len(t) < 19 {\n\t\treturn time.Now(), fmt.Errorf(\"invalid timestamp\")\n\t}\n\tif t[4] != '-' ||"),
+    B("c07-benign-trim-guard-form", "C07", SEX, "\tif iend < istart {\n\t\treturn \"\"\n\t}\n", "\tif istart > iend {\n\t\treturn \"\"\n\t}\n"),
+    B("c07-benign-serializer-guard-form", "C07", ESER, "\t\t\t\tif len(buffer)-position-minTailLength < len(fieldKey)+maxStringHeaderLength+len(value) {", "\t\t\t\tif room := len(buffer) - position - minTailLength; room < len(fieldKey)+maxStringHeaderLength+len(value) {"),
+    B("c07-benign-mlr-locals", "C07", MLR, "\t\tmlr.offsetAppend = copy(mlr.buffer, buffer[recordStart:])\n\t\tmlr.offsetSearch = searchStart - recordStart\n", "\t\tremaining := buffer[recordStart:]\n\t\tmlr.offsetAppend = copy(mlr.buffer, remaining)\n\t\tmlr.offsetSearch = searchStart - recordStart\n"),
+]
